@@ -515,7 +515,7 @@ def check_c08(exe, tier, seed, verdict):
         vals = [rnd.getrandbits(1) for _ in range(40)] if T == "Bool" else [rnd.getrandbits(64 if T in ("Int64", "UInt64", "Double") else 32) for _ in range(40)]
         if T in ("Float", "Double"):
             vals = [v for v in vals if (v >> (52 if T == "Double" else 23)) & (0x7ff if T == "Double" else 0xff) != (0x7ff if T == "Double" else 0xff)] or [0]
-        for mode in ("edirect", "efile", "ndirect", "idirect", "ifile", "oedirect"):
+        for mode in ("edirect", "efile", "ndirect", "idirect", "ifile", "oedirect", "udirect", "ufile", "oudirect"):
             add("%s-%s" % (T, mode), ["rtmatrix %s %s %s %s" % (T, mode, hx(d), " ".join("%x" % v for v in vals))], len(vals))
     add("Bool-matrix", ["rtmatrix Bool direct %s %s" % (hx(d), " ".join("%x" % rnd.getrandbits(1) for _ in range(90)))], 90)
     add("Bool-omatrix", ["rtmatrix Bool odirect %s %s" % (hx(d), " ".join("%x" % rnd.getrandbits(1) for _ in range(90)))], 90)
@@ -565,7 +565,7 @@ def check_c08(exe, tier, seed, verdict):
     exhaustive = tier == "thorough"
     cov = {"evaluations": total + len(words) * 2, "distinct_nontrivial": sum(len(boundary_values(T)) for T in ("Int", "UInt", "Float", "Int64", "UInt64", "Double")) + len(words),
            "rule": ("exhaustive sweep of all 2^32 values of int32, uint32 and float (set + get, compared bit for bit, NaN as NaN)" if exhaustive else "strided sweep (step 4099) of the 2^32 values of int32, uint32, float + dense windows around 0, 2^31 and 2^32-1") +
-                   "; via econf_writeFile + econf_readFile for the window around 2^31 and for all boundary values; for all six numeric types: every single-bit value +-1, every power of ten +-1, the type limits, non-finite / subnormal / largest floats, and a pseudo-random sample; the same values spread over keys of three alternately used sections (names of 1, 2 and 5 characters, setter and getter each using the bare or the bracketed form in all four combinations) and group-less keys (rtmatrix: set all, then get all, directly and via file; on a fresh object, on one parsed from a file that begins with a section header, on one parsed from a file without any key, on one made by econf_newKeyFile_with_options and on one made by econf_newIniFile; and with every key set a SECOND time - to v/100 resp. the integral part, whose decimal text is a prefix of the first value's - before the reading round); all %d case variants of the boolean words through setBool/getBool directly and via file. Summary events (type, mode, count, mismatches) validated by Trace_Typed (bad = 0, count as requested). non-trivial = boundary / single-bit / power-of-ten neighbour / special float / mixed-case spelling." % len(words),
+                   "; via econf_writeFile + econf_readFile for the window around 2^31 and for all boundary values; for all six numeric types: every single-bit value +-1, every power of ten +-1, the type limits, non-finite / subnormal / largest floats, and a pseudo-random sample; the same values spread over keys of three alternately used sections (names of 1, 2 and 5 characters, setter and getter each using the bare or the bracketed form in all four combinations) and group-less keys (rtmatrix: set all, then get all, directly and via file; on a fresh object, on one parsed from a file that begins with a section header, on one parsed from a file without any key, on one parsed from a file that defines keys twice, on one made by econf_newKeyFile_with_options and on one made by econf_newIniFile; and with every key set a SECOND time - to v/100 resp. the integral part, whose decimal text is a prefix of the first value's - before the reading round); all %d case variants of the boolean words through setBool/getBool directly and via file. Summary events (type, mode, count, mismatches) validated by Trace_Typed (bad = 0, count as requested). non-trivial = boundary / single-bit / power-of-ten neighbour / special float / mixed-case spelling." % len(words),
            "samples": [events[0], events[-1]] if events else [], "exhaustive": exhaustive, "values_round_tripped": total, "boolean_spellings_ok": nb,
            "states": r.distinct, "trusted_base": ["gcc -O2 build of the driver for the sweeps", "TLC 1.8.0 (summary events, model lemma RoundTrip)"]}
     return cov, "exploration"
